@@ -21,7 +21,10 @@ LinkEdits == {"name", "mat_path", "mat_path_backslash", "prod_path", "mat_digest
               "env_fold", "byp_fold", "command_fold", "paths_fold",
               \* a character beyond U+00FF exchanged for the ASCII character with the same low byte (U+0141 / A,
               \* U+4E42 / B, U+1F643 / C), in a string value and in a member name
-              "high_twin_value", "high_twin_key", "high_twin_astral"}
+              "high_twin_value", "high_twin_key", "high_twin_astral",
+              \* a sibling member added whose name is an existing member's with one character exchanged for its
+              \* low-byte / low-16-bit twin
+              "twin_member_add8", "twin_member_add16"}
 \* expires_plus_year / _day: applied by the harness at every date class (mid-year, 29 Dec .. 3 Jan of
 \* several years, leap day, month ends) - "expiry to the second" must hold at every calendar position
 LayoutEdits == {"readme", "expires_plus1", "expires_minus1", "expires_plus_year", "expires_plus_day", "pubkeys_case", "step_name", "step_threshold", "step_threshold_zero", "step_threshold_one_to_zero", "match_empty_src", "match_empty_dst",
